@@ -287,12 +287,19 @@ func TestVFC20Reader(t *testing.T) {
 						for older < n && all[n-1-older].ts > ts {
 							older++
 						}
-						c.setOneOf(0, older)
+						if ak == "between_files" {
+							// the value lies after the last entry of the rotated
+							// file and before the first one of the current file:
+							// a seek that reports success must not leave the
+							// reader in front of entries newer than the value
+							// ("without ... mis-positioning subsequent reads")
+							c.set(older)
+							fellThrough = true
+						} else {
+							c.setOneOf(0, older)
+						}
 						positioned = true
 						op.Result = "start"
-						if ak == "between_files" {
-							fellThrough = true
-						}
 					}
 				}
 				counts["reader_seek:"+op.Kind+"->"+op.Result]++
